@@ -2,4 +2,5 @@
 set -eu
 out="${VERIF_OUT:-build/bin/c05}"
 go build -tags verif -overlay "$VERIF_OVERLAY" -o "$out" ./cmd/c05
+go build -race -tags verif -overlay "$VERIF_OVERLAY" -o "$out-race" ./cmd/c05
 bin/buildcoop.sh c05 "$out-coop"
